@@ -479,6 +479,8 @@ func rulesC01(e *Engine, r *Report) {
 	// ---------------------------------------------------------------- R01.16
 	r.Rule("R01.16", "every staged file has its own record: the helpers that read and write companions append the companion extension only to a path that does not end in it already - so every call in package stage hands them either a path built with the extension (`<base> + \".cmp\"`) or a path that was tested to carry it (a directory entry met by a walk); a bare base path would make the file called `x.cmp` share - and overwrite - the companion of the file `x`")
 	checkCompanionPathsExplicit(e, r, "R01.16")
+	// ---------------------------------------------------------------- R01.17
+	e.shareRule(r, "C20", "R20.3", "R01.17", "a body and its record go together: the frozen table of removals in package stage - the validator removes the companion of a staged file it cannot read together with that file, so that after a restart no companion of one version is found next to the parked bytes of another (R01.14 trusts a companion when nothing else is there)")
 }
 
 func shorten(s string) string {
@@ -487,7 +489,6 @@ func shorten(s string) string {
 	}
 	return s
 }
-
 
 // checkCompanionPathsExplicit: shared by R01.16 and R09.13.
 func checkCompanionPathsExplicit(e *Engine, r *Report, rule string) {
